@@ -45,6 +45,7 @@ type Path struct {
 	stores   map[string]*StoreData
 	calllog  []string
 	fmtNames map[string]string
+	envReads []string
 }
 
 type pathEnd struct{ reason string }
